@@ -32,6 +32,8 @@ ASSUMPTIONS = [
 def _args_for(rng, desc, in_keys, kinds):
     vals = []
     for key, kind in zip(in_keys, kinds):
+        if kind == 'name' and desc['names'][key[0]][0] == 'rng':
+            kind, key = 'range', tuple(desc['names'][key[0]][1:7])
         if kind == 'range':
             c1, r1, c2, r2 = key[2:]
             vals.append([[rng.choice(wbrun.VALUE_POOL[:10])
@@ -232,15 +234,41 @@ def make_model_case(seed, i):
             elif t < 0.75 and len(forms) > 2:
                 I.append(['cell', list(rng.choice(forms[:len(forms) // 2 + 1]))])
             elif t < 0.85:
-                names = [n for n, node in desc['names'].items() if node[0] == 'cell']
+                names = [n for n, node in desc['names'].items() if node[0] == 'cell' or (
+                    node[0] == 'rng' and
+                    (node[4] - node[2] + 1) * (node[6] - node[3] + 1) <= 16)]
                 if names:
                     I.append(['name', [rng.choice(sorted(names))]])
             else:
                 rects = _rect_nodes(desc)
                 if rects:
                     I.append(['range', list(rng.choice(rects))])
-        targets = {tuple(desc['names'][x[1][0]][1:5]) for x in I if x[0] == 'name'}
+        rnames = sorted(n for n, node in desc['names'].items() if node[0] == 'rng' and
+                        (node[4] - node[2] + 1) * (node[6] - node[3] + 1) <= 16)
+        forced = None
+        if j == 1 and rnames:
+            # a rectangle-valued name is the input; its member cells are read
+            # directly by some outputs
+            forced = rng.choice(rnames)
+            I = [['name', [forced]]] + [x for x in I if x[0] == 'cell'][:1]
+        targets = set()
+        for x in I:
+            if x[0] == 'name':
+                node = desc['names'][x[1][0]]
+                if node[0] == 'cell':
+                    targets.add(tuple(node[1:5]))
+                else:
+                    b_, s_, c1, r1, c2, r2 = node[1:7]
+                    targets |= {(b_, s_, c, r) for c in range(c1, c2 + 1)
+                                for r in range(r1, r2 + 1)}
         I = [x for x in I if not (x[0] == 'cell' and tuple(x[1]) in targets)]
+        # a range input must not overlap a rectangle-valued name among the inputs
+        I = [x for x in I if not (x[0] == 'range' and targets & {
+            (x[1][0], x[1][1], c, r) for c in range(x[1][2], x[1][4] + 1)
+            for r in range(x[1][3], x[1][5] + 1)})]
+        if sum(1 for x in I if x[0] == 'name' and
+               desc['names'][x[1][0]][0] == 'rng') > 1:
+            continue
         seen, I2 = set(), []
         for x in I:
             k = (x[0], tuple(x[1]))
@@ -253,6 +281,10 @@ def make_model_case(seed, i):
         O = [list(k) for k in rng.sample(forms, min(len(forms), rng.randint(1, 4)))]
         if arrs and rng.random() < 0.4:
             O.append(list(rng.choice(arrs)))
+        if forced:
+            down = wbrun.downstream(desc, sorted(targets))
+            dn = [list(k) for k in forms if k in down and list(k) not in O]
+            O += rng.sample(dn, min(len(dn), 3))
         O = [o for o in O if ['cell', o] not in I]
         if not O:
             continue
@@ -267,8 +299,12 @@ def make_model_case(seed, i):
                 b_, s_, c1, r1, c2, r2 = x[1]
                 covered |= {(b_, s_, c, r) for c in range(c1, c2 + 1)
                             for r in range(r1, r2 + 1)}
-            else:
+            elif desc['names'][x[1][0]][0] == 'cell':
                 covered.add(tuple(desc['names'][x[1][0]][1:5]))
+            else:
+                b_, s_, c1, r1, c2, r2 = desc['names'][x[1][0]][1:7]
+                covered |= {(b_, s_, c, r) for c in range(c1, c2 + 1)
+                            for r in range(r1, r2 + 1)}
         others = [k for k in consts if k not in covered]
         disturb = [[[list(k), rng.choice((100.0, -7.0, 55.5, 'txt', True))]
                     for k in rng.sample(others, min(len(others), rng.randint(1, 3)))]
